@@ -126,8 +126,8 @@ def run_checks(root, props, env):
     return res
 
 
-def evaluate(sid, props):
-    dst = os.path.join(SEEDED, sid)
+def evaluate(sid, props, base=None):
+    dst = os.path.join(base or SEEDED, sid)
     meta = json.load(open(os.path.join(dst, "meta.json")))
     props = props or [meta["property"]]
     wt = worktree("eval-" + sid)
@@ -180,8 +180,44 @@ def on_repo(sid, props):
     return res
 
 
+HARMLESS = os.path.join(VERIF, "harmless")
+ALL = ["C%02d" % i for i in range(1, 16)]
+
+
+def hverify(out_dir, h, sid):
+    """a behaviour-preserving change: the patch applies, the repository builds, the existing suite passes"""
+    patch = os.path.join(out_dir, h + ".diff")
+    wt = worktree("hverify-" + sid)
+    ran = []
+    try:
+        for name, cmd in (("patch applies at HEAD", ["git", "apply", patch]), ("builds", ["go", "build", "./..."]),
+                          ("existing suite passes", ["go", "test", "-vet=off", "-count=1", "-timeout", "600s", "./..."])):
+            rc, out = sh(cmd, cwd=wt)
+            ran.append({"step": name, "cmd": " ".join(cmd), "exit": rc, "tail": out[-300:]})
+            if rc != 0:
+                print("REJECTED %s: %s\n%s" % (sid, name, out[-1500:]))
+                return 1
+    finally:
+        drop(wt)
+    dst = os.path.join(HARMLESS, sid)
+    os.makedirs(dst, exist_ok=True)
+    shutil.copy(patch, os.path.join(dst, "patch.diff"))
+    notes = os.path.join(out_dir, h + ".md")
+    if os.path.exists(notes):
+        shutil.copy(notes, os.path.join(dst, "author_notes.md"))
+    json.dump({"id": sid, "property": "none (behaviour-preserving change: no check should find a failing input)",
+               "confirmed": {"when": time.strftime("%Y-%m-%d %H:%M:%S"), "steps": ran}}, open(os.path.join(dst, "meta.json"), "w"), indent=1)
+    print("STORED %s -> %s" % (sid, dst))
+    return 0
+
+
 if __name__ == "__main__":
     a = sys.argv[1:]
+    if a[:1] == ["hverify"] and len(a) == 4:
+        sys.exit(hverify(a[1], a[2], a[3]))
+    if a[:1] == ["heval"] and len(a) >= 2:
+        evaluate(a[1], a[2:] or ALL, HARMLESS)
+        sys.exit(0)
     if a[:1] == ["verify"] and len(a) == 5:
         sys.exit(verify(a[1], a[2], a[3], a[4]))
     elif a[:1] == ["eval"] and len(a) >= 2:
